@@ -557,7 +557,7 @@ Section Rejected.
       destruct (index_mapping_from_complete 0 (keep_indices (s_bindings s)) i) as [j Hj];
         [eapply keep_indices_In; eassumption|].
       unfold index_mapping. rewrite Hj. cbn [option_map].
-      pose proof (index_mapping_spec _ _ _ Hj) as [Hn _]. now rewrite (Hnth _ _ Hn).
+      pose proof (index_mapping_spec _ _ _ Hj) as [Hn _]. rewrite (Hnth _ _ Hn). now rewrite (Ha x i Hin).
     - unfold get_variables. cbn [s_bindings]. symmetry.
       eapply F2_names. apply sort_by_index_F2; [apply sort_sorted|].
       exact (renumber_vars_of _ _ _ Hr).
@@ -635,3 +635,81 @@ Section Split.
         rewrite Hc. cbn [Repl.run_seq]. now destruct (isnil v').
   Qed.
 End Split.
+
+(* ------------------------------------------------------------------------------------------- *)
+(* non-vacuity and the refuted case                                                             *)
+(* ------------------------------------------------------------------------------------------- *)
+Module Examples.
+  (* values are numbers, nil is 0; names: x = 0, t = 1 (an alias), z = 2, w = 3 *)
+  Definition s_ex : @session nat :=
+    mkSession [(0, BVar 3); (1, BAlias); (2, BVar 1)] [0; 20; 0; 10] 77 false.
+  Definition val_ex (x : name) : nat := match x with 0 => 10 | 2 => 20 | _ => 0 end.
+
+  Lemma s_ex_aligned : aligned val_ex s_ex.
+  Proof.
+    intros x i Hin. cbn in Hin.
+    destruct Hin as [H|[H|[H|[]]]]; try discriminate; injection H as <- <-; reflexivity.
+  Qed.
+
+  (* compaction really renumbers here: x 3 -> 1, z 1 -> 0, locals [20; 10] *)
+  Example compact_ex :
+    compact s_ex = COk (mkSession [(0, BVar 1); (1, BAlias); (2, BVar 0)] [20; 10] 77 false).
+  Proof. reflexivity. Qed.
+
+  (* a line `w = <99>, x = <55>` (shadowing x): parameter at slot 2, w at 3, a temporary at 4, x at 5 *)
+  Definition c_ex : compiled := mkCompiled [(0, BVar 5); (1, BAlias); (2, BVar 0); (3, BVar 3)] true false.
+  Definition r_ex : @ran nat := mkRan [99; 1; 55] 1.
+  Definition val_ex' (x : name) : nat := match x with 0 => 55 | 2 => 20 | 3 => 99 | _ => 0 end.
+
+  Example line_wf_ex :
+    line_wf (mkSession [(0, BVar 1); (1, BAlias); (2, BVar 0)] [20; 10] 77 false) c_ex r_ex val_ex val_ex'.
+  Proof.
+    intros x i Hin. cbn in Hin.
+    destruct Hin as [H|[H|[H|[H|[]]]]]; try discriminate; injection H as <- <-; cbn.
+    - right. repeat split; lia.
+    - left. repeat split; [lia|auto].
+    - right. repeat split; lia.
+  Qed.
+
+  Example evaluate_ex :
+    evaluate 0 s_ex (LOk c_ex r_ex) =
+    EValue 1 (mkSession [(0, BVar 5); (1, BAlias); (2, BVar 0); (3, BVar 3)] [20; 0; 0; 99; 0; 55] 1 false).
+  Proof. reflexivity. Qed.
+
+  (* the compile-rejected line on the same session: observationally the same session *)
+  Example rejected_ex :
+    evaluate 0 s_ex LCompileError = ECompileError (mkSession [(0, BVar 1); (1, BAlias); (2, BVar 0)] [20; 10] 77 false)
+    /\ get_variables s_ex = [2; 0]
+    /\ request_variable s_ex 0 = WOk 10.
+  Proof. repeat split. Qed.
+
+  (* split_equivalence: steps add their number to the value; step 0 yields nil (0) *)
+  Definition exec_ex (s : nat) (e : list nat) (v : nat) : list nat * nat := (s :: e, if Nat.eqb s 0 then 0 else v + s).
+  Example split_ex :
+    lines_nil_free exec_ex (Nat.eqb 0) [[1; 2]; []; [3]; [4; 5]] [] 0 /\
+    run_lines exec_ex (Nat.eqb 0) [[1; 2]; []; [3]; [4; 5]] [] 0 = ([5; 4; 3; 2; 1], 15) /\
+    line_values exec_ex (Nat.eqb 0) [[1; 2]; []; [3]; [4; 5]] [] 0 = [3; 3; 6; 15].
+  Proof. cbn. repeat split; auto. Qed.
+  (* ... and the hypothesis matters: with a nil line in the middle the REPL goes on, the program stops *)
+  Example split_nil_differs :
+    run_lines exec_ex (Nat.eqb 0) [[1; 0]; [3]] [] 0 <> run_seq exec_ex (Nat.eqb 0) (concat [[1; 0]; [3]]) [] 0.
+  Proof. cbn. discriminate. Qed.
+
+  (* F51: the line `5 =6, x = 7` on a fresh session: the compiler returns x at slot 1, the run
+     stores only the parameter (the second step is skipped).  The committed session violates the
+     invariant for every valuation, `request_variable x` fails, and the next non-parse line makes
+     the worker fail on CompactLocals. *)
+  Definition c_f51 : compiled := mkCompiled [(0, BVar 1)] true false.
+  Definition r_f51 : @ran nat := mkRan [] 0.
+  Definition s_f51 : @session nat := mkSession [(0, BVar 1)] [0] 0 false.
+  Lemma shortcircuit_refuted :
+    (forall val, aligned val (@initial nat 0)) /\
+    evaluate 0 (initial 0) (LOk c_f51 r_f51) = EValue 0 s_f51 /\
+    (forall val, ~ aligned val s_f51) /\
+    request_variable s_f51 0 = WErr (LocalNotFound 1) /\
+    evaluate 0 s_f51 LCompileError = EWorkerError (LocalNotFound 1) (mkSession [(0, BVar 0)] [0] 0 false).
+  Proof.
+    split; [intros val x i []|]. split; [reflexivity|]. split; [|split; reflexivity].
+    intros val Ha. specialize (Ha 0 1 (or_introl eq_refl)). discriminate.
+  Qed.
+End Examples.
